@@ -88,6 +88,9 @@ func VerifC04First() {
 	switch kind {
 	case 0:
 		okLogin := ver.loginOK && plug.outcome <= 1
+		if plug.outcome == 1 {
+			zzverif.Assert(ver.loginCalls == 1 && ver.seenLoginUser == plug.tag, "C15.sites.login-verified-on-plugin-rewritten-content")
+		}
 		if okLogin {
 			zzverif.Assert(conn.closed == 0 && zzSessions(svr) == 1, "C04.first.login-accepted")
 			zzverif.Reach("C04.first.login-accepted")
@@ -156,6 +159,8 @@ func VerifC04WorkConn() {
 		zzverif.Reach("C04.work.refused")
 	}
 	if plug.outcome == 1 && m.RunID == "r1" {
+		// the credential check is made on what the plugin chain returned
+		zzverif.Assert(ver.workCalls == 1 && ver.seenWorkKey == "k"+plug.tag, "C15.sites.workconn-verified-on-plugin-rewritten-content")
 		zzverif.Reach("C15.sites.workconn-plugin-modified")
 	}
 }
@@ -186,6 +191,12 @@ func VerifC04Ping() {
 	}
 	if plug.outcome >= 2 {
 		zzverif.Assert(ver.pingCalls == 0, "C15.sites.ping-not-verified-after-plugin-refusal")
+	}
+	if plug.outcome == 1 {
+		zzverif.Assert(ver.pingCalls == 1 && ver.seenPingKey == "k"+plug.tag, "C15.sites.ping-verified-on-plugin-rewritten-content")
+	}
+	if plug.outcome == 0 {
+		zzverif.Assert(ver.pingCalls == 1 && ver.seenPingKey == "k", "C15.sites.ping-verified-unchanged")
 	}
 }
 
